@@ -296,7 +296,8 @@ fn show(a: &[(Vec<u8>, Outcome)]) -> Vec<String> {
 
 /// metric text of exactly `len` bytes that never contains a terminator byte
 fn metric_bytes(seq: u64, len: usize) -> Vec<u8> {
-    let mut s = format!("m{}.k:{}|c|#t:{}", seq, seq % 97, seq % 7).into_bytes();
+    // (multi-byte UTF-8 inside: a length counted in characters instead of bytes would show)
+    let mut s = format!("m{}.\u{e9}k:{}|c|#t:{}", seq, seq % 97, seq % 7).into_bytes();
     if s.len() > len {
         // short metrics: a rolling letter, as in the model
         return vec![b'a' + (seq % 26) as u8; len];
